@@ -77,6 +77,40 @@ class _PumpIdle(Exception):
     pass
 
 
+class PumpHang(Exception):
+    """The real poll loop did not go idle within the real-time guard."""
+
+
+class _PumpStopEvent:
+    """Stand-in for SyncTasks._stop_event in sequential worlds: any idle wait on it ends the pump run."""
+
+    def __init__(self):
+        self.flag = False
+
+    def is_set(self):
+        return self.flag
+
+    isSet = is_set
+
+    def set(self):
+        self.flag = True
+
+    def clear(self):
+        self.flag = False
+
+    def wait(self, timeout=None):
+        # the loop has nothing to do and waits for the stop signal: that is 'idle'
+        self.flag = True
+        return True
+
+    def verif_state(self):
+        return (self.flag,)
+
+
+def _alarm(signum, frame):
+    raise PumpHang("the poll loop did not go idle within 20 s of real time")
+
+
 def _task_sleep(seconds):
     """mysensors.task.time.sleep: the pump's idle sleep. Make the real loop return when idle."""
     world = CURRENT
@@ -364,6 +398,8 @@ class World:
             return real_add(_Tagged(func, world.cur_cause, world), *args)
 
         gw.tasks.add_job = tagging_add_job
+        if hasattr(gw.tasks, "_stop_event"):
+            gw.tasks._stop_event = _PumpStopEvent()
         if self.persistence:
             if self.flavour != "sync":
                 # sequential async worlds only load (start_persistence proper needs a loop: see vloop checks)
@@ -377,14 +413,23 @@ class World:
         """Run the real poll loop to idle (sync) - async jobs already ran inline."""
         if self.flavour != "sync":
             return
+        import signal
+
         tasks = self.gw.tasks
+        guard = _real_threading.current_thread() is _real_threading.main_thread()
+        if guard:
+            old_handler = signal.signal(signal.SIGALRM, _alarm)
+            signal.setitimer(signal.ITIMER_REAL, 20.0)
         try:
             tasks._poll_queue()
-        except Exception as exc:  # the poll thread would have died
+        except Exception as exc:  # the poll thread would have died (or never goes idle)
             obs.exc = exc_info(exc)
             obs.where = "pump"
             self.dead = obs.exc
         finally:
+            if guard:
+                signal.setitimer(signal.ITIMER_REAL, 0)
+                signal.signal(signal.SIGALRM, old_handler)
             tasks._stop_event.clear()
 
     def mqtt_effective(self, line, qos=None):
